@@ -7,7 +7,7 @@ PROP = 'C05'
 THEOREMS = ['single_eq_ref', 'length_preserved', 'labels_subset', 'runs_ge_result',
             'shortcut_sound_thm', 'stage_modes_agree', 'iterative_eq_successive', 'per_trajectory',
             'kernel_result_runs', 'idempotent', 'error_iff_no_core', 'no_core_means_no_window',
-            'wrapper_spec', 'runs_geb_decides']
+            'wrapper_spec', 'runs_geb_decides', 'fast_coring_is_wrapper_thm']
 CONFIGS = [dict(jit=True), dict(jit=False)]
 RULE = ('quick: all trajectories over 3 labels up to length 6 x tau 1..4 x both modes, plus random '
         'multi-trajectory sets (different lengths, all alphabets incl. label -1, tau <= 12, tau <= 0); '
